@@ -159,8 +159,8 @@ var propTable = map[string]*propSpec{
 	},
 	"C16": {
 		ID:          "C16",
-		Rules:       []string{"R-FOR", "R-PRIVREG", "R-SCOPE"},
-		Explanation: "Decides the structural part of 'numeric for loops iterate the manual's sequence and terminate': the three control expressions are held in private registers (evaluated once), the loop variable is a fresh register per iteration copied from the hidden counter, non-numbers and a zero step are errors, and every store to the hidden counter in the advance step depends on a limit comparison and an overflow comparison; the per-iteration scope is popped before the back jump (R-SCOPE).",
+		Rules:       []string{"R-FOR", "R-PRIVREG", "R-SCOPE", "R-ARITHKIND"},
+		Explanation: "Decides the structural part of 'numeric for loops iterate the manual's sequence and terminate': the three control expressions are held in private registers (evaluated once), the loop variable is a fresh register per iteration copied from the hidden counter, non-numbers and a zero step are errors, and every store to the hidden counter in the advance step depends on a limit comparison and an overflow comparison; the per-iteration scope is popped before the back jump (R-SCOPE). (R-ARITHKIND) The comparison the loop step uses (numIsLessThan) compares an integer with a float through the exact helpers, never through a float64 conversion of the integer, which rounds beyond 2^53 and would let the loop run past its limit.",
 		NotDecided:  "that the comparisons compare the right operands in the right direction: the iteration sequence, clipping of float limits and the iteration count are functions of the operand values.",
 		Assumptions: []string{"the numeric-for opcode block is located structurally (the block reading A, B, C and branching on F with three register reads)"},
 	},
